@@ -420,6 +420,16 @@ class Exec:
         self.solver.add(b == term)
         return b
 
+    def expand(self, term):
+        """replace names introduced by define() by their definitions"""
+        subs = [(b, t) for (b, t) in self._def_cache.values()]
+        for _ in range(len(subs) + 1):
+            new = z3.substitute(term, *subs) if subs else term
+            if new.eq(term):
+                break
+            term = new
+        return term
+
     def must(self, st, cond):
         """is cond implied by the path condition?  (cond: z3 Bool)"""
         c = z3.simplify(cond)
